@@ -842,6 +842,9 @@ func (p *Path) typeAssert(instr *ssa.TypeAssert, itf iface) value {
 	}
 	if err != "" {
 		if !instr.CommaOk {
+			if os.Getenv("SYMGO_TRACE_PANIC") != "" {
+				fmt.Fprintf(os.Stderr, "rtPanic: %s at %s%s\n", err, p.where(), p.stackString())
+			}
 			panic(targetPanic{iface{t: p.eng.lp.rtErrType, v: err}})
 		}
 		return tuple{zero(instr.AssertedType), tFalse}
